@@ -141,7 +141,25 @@ def _z3_check(smt2, timeout_ms, want_model=True):
     # set comprehensions (lambda terms) are expensive: first without them
     plain = [f for f in quant if not _has_lambda(f, z3)]
     near_plain = [f for f in near if not _has_lambda(f, z3)]
-    if near_plain and len(near_plain) < len(quant):
+    # first the quantified hypotheses that share a RARE symbol with the goal
+    # (a symbol occurring in few hypotheses: loop ghosts, skolem constants,
+    # fresh results), not merely ubiquitous ones such as card or the fields
+    # of self
+    freq = {}
+    for _, sy in qsym:
+      for x in sy:
+        freq[x] = freq.get(x, 0) + 1
+    for f in qf:
+      for x in _symbols(f, z3):
+        freq[x] = freq.get(x, 0) + 1
+    cut = max(3, (len(quant) + len(qf)) // 12)
+    rare_syms = {x for x in gs if freq.get(x, 0) <= cut}
+    rare = [f for f, sy in qsym if sy & rare_syms]
+    if rare and len(rare) < len(quant):
+      stages.append(('qf+lemmas+rare-symbol-quantifiers',
+                     qf + lemmas + rare + [goal]))
+    if near_plain and len(near_plain) < len(quant) and (
+        len(near_plain) != len(rare) or not rare):
       stages.append(('qf+lemmas+goal-foralls',
                      qf + lemmas + near_plain + [goal]))
     if plain and len(near_plain) < len(plain) < len(quant):
@@ -157,8 +175,20 @@ def _z3_check(smt2, timeout_ms, want_model=True):
     if len(near) < len(near2) < len(quant):
       stages.append(('qf+lemmas+near-quantifiers',
                      qf + lemmas + near2 + [goal]))
+  sl1 = None
+  if len(fs) > 12:
+    # hypotheses (of every kind) that share a symbol with the goal: small and
+    # usually sufficient, so it is tried early and with a fair budget
+    sls = _slices(fs, z3)
+    if sls and len(sls[0]) < len(fs):
+      sl1 = sls[0]
+      stages.insert(1 if stages else 0, ('relevance depth 1', sl1))
   for name, sub in stages:
-    if _try(z3, sub, short):
+    # the targeted slices get a larger share of the budget than the blind ones
+    budget = max(short, timeout_ms // 3) if name in (
+        'relevance depth 1', 'qf+lemmas+rare-symbol-quantifiers',
+        'qf+lemmas+goal-foralls') else short
+    if _try(z3, sub, budget):
       return {'backend': 'z3', 'result': 'unsat', 'time': time.time() - t0,
               'slice': '%s: %d/%d hypotheses' % (name, len(sub) - 1,
                                                  len(fs) - 1)}
@@ -166,6 +196,8 @@ def _z3_check(smt2, timeout_ms, want_model=True):
     for k, sl in enumerate(_slices(fs, z3)):
       if len(sl) >= len(fs):
         break
+      if k == 0 and sl1 is not None:
+        continue
       if _try(z3, sl, short):
         return {'backend': 'z3', 'result': 'unsat', 'time': time.time() - t0,
                 'slice': 'relevance depth %d: %d/%d hypotheses' % (
